@@ -340,10 +340,11 @@ def replay(path):
         b = build.build()
         c = l["c"]
         lines = run_universe(b, [c], work)
-        try:
-            consistency_oracle(lines)
-        except Exception:
-            pass
+        if os.environ.get("VERIF_C07_READER", "1") == "1":
+            try:
+                consistency_oracle(lines)
+            except Exception:
+                pass
         for x in lines:
             x.pop("_img", None)
         res = tracecheck.validate_lines([json.dumps(lines[0], sort_keys=True)], os.path.join(SPEC, "Trace_Geometry.tla"), os.path.join(SPEC, "Trace_Geometry.cfg"), work)
